@@ -38,7 +38,16 @@ def c16_jobs(tier):
     return [sim("c16-crashpoints", "c16", require_counters=["abandoned_mid_flight", "abandoned_with_full_mailbox_seen", "dropped_while_parked"])]
 
 
+def c14_jobs(tier):
+    return [sim("c14-push-faults", "c14", require_counters=["posts_observed", "delete_while_failing_checked", "rounds_against_closed_port", "answers.102", "answers.late90s-200", "answers.reset"])]
+
+
 PROPERTIES = {
+    "C14": {"level": "fault_enumeration", "jobs": c14_jobs, "engine": "dvsim + scripted push endpoint",
+            "technique": "fault injection with runtime monitoring: scripted HTTP endpoint enumerates per-attempt behaviour sequences; offline checker over the endpoint's request log",
+            "level_text": "The real push loop POSTs to a scripted raw-TCP HTTP endpoint inside the episode's runtime; every per-attempt behaviour sequence up to length 2 (quick) / 3 (thorough) over 17 behaviours (accepted and rejected statuses, interim 1xx, resets, late answers) is enumerated for 1 and 3 messages, plus closed-port and delete-while-failing episodes. The checker over the request log requires well-formed bodies naming the subscription, a re-POST after every failure within 2 intervals + margin, no POST after an accepted in-deadline answer for 5 virtual minutes, no POST for pull-only siblings and none after deletion. Complete enumeration of the fault family to the bound; timing uses wide margins because virtual time is lumpy with real sockets.",
+            "level_note": SIM_NOTE + " Real loopback sockets with a paused clock: time is monotone but lumpy, timing verdicts carry >=30 s margins; observations inside a margin are inconclusive.",
+            "assumptions": ["ack deadline 60 s, push interval 1 s, 'late' = 90 s", "a connection closed right after accept stands in for 'refused' inside scripted sequences; a really closed port is covered by the special episodes"]},
     "C16": {"level": "fault_enumeration", "jobs": c16_jobs, "engine": "dvsim",
             "technique": "fault injection with runtime monitoring: poll-k-then-drop abandonment at every suspension point of every request kind, state compared with the two admissible outcomes at quiescence",
             "level_text": "Every request kind (20) is abandoned after exactly k polls for k=1..14 under four mailbox saturation settings (complete enumeration, repeated with seeded scheduler yields), on the real services with the handler future living inside the dropped client future. After quiescence the client-visible state (listings, attachment, stats, push registry), a probe publish to every topic and message accounting after the deadline must equal 'request completed' or 'request never received'. Enumeration of crash points is complete for the direct transport up to k=14 (every kind completes in <=4 polls); schedules around it are sampled.",
